@@ -85,7 +85,15 @@ class Closure(object):
         self.env = env
 
 
-_CALLABLE_VALUES = (FuncRef, Closure, Bound, Obj, Partial, Native)
+class RegexMethod(object):
+    """PATTERN.sub / PATTERN.match ... taken as a value (partial(PATTERN.sub, ""))"""
+
+    def __init__(self, regex, name):
+        self.regex = regex
+        self.name = name
+
+
+_CALLABLE_VALUES = (FuncRef, Closure, Bound, Obj, Partial, Native, RegexMethod)
 
 
 class Raised(Unknown):
@@ -176,8 +184,34 @@ def _mro(repo, module, cls):
     return out
 
 
+def _namedtuple_fields(repo, module, cls):
+    """field names when the class (or a base of it) derives from a namedtuple type: class X(namedtuple("X", [...])) or
+    class X(SomeNamedtupleConstant); else None"""
+    for m, c in _mro(repo, module, cls):
+        for b in c.bases:
+            try:
+                v = repo.ceval(m, b)
+            except Unknown:
+                continue
+            if isinstance(v, tuple) and len(v) == 3 and v[0] == "namedtuple":
+                return list(v[2])
+    return None
+
+
 def instantiate(repo, module, cls, args=(), kwargs=None, depth=0):
     obj = Obj(module, cls)
+    fields = _namedtuple_fields(repo, module, cls)
+    if fields is not None and not any(isinstance(st, ast.FunctionDef) and st.name in ("__init__", "__new__") for m, c in _mro(repo, module, cls) for st in c.body):
+        # a record type extended with methods / properties: the fields are filled like the namedtuple does
+        kw = dict(kwargs or {})
+        vals = list(args)
+        if len(vals) > len(fields) or any(k not in fields[len(vals):] for k in kw) or len(vals) + len(kw) != len(fields):
+            raise Raised("TypeError", "%s() arguments" % cls.name)
+        for f_, v_ in zip(fields, vals):
+            obj.attrs[f_] = v_
+        obj.attrs.update(kw)
+        obj.attrs["__fields__"] = tuple(fields)
+        return obj
     for m, c in _mro(repo, module, cls):
         for st in c.body:
             if isinstance(st, ast.FunctionDef) and st.name == "__init__":
@@ -439,6 +473,11 @@ class _Interp(object):
 
     def iterate(self, v):
         """the values an iteration over v produces (an instance with __iter__ / __next__ is driven until StopIteration)"""
+        if isinstance(v, Obj) and "__fields__" in v.attrs:
+            try:
+                _class_member(self.repo, v, "__iter__")
+            except Unknown:
+                return [v.attrs[f_] for f_ in v.attrs["__fields__"]]
         if isinstance(v, Obj):
             r = self.dunder(v, "__iter__")
             if isinstance(r, Obj):
@@ -545,6 +584,14 @@ class _Interp(object):
             raise Unknown("binop")
         if isinstance(n, ast.Subscript):
             v = self.expr(n.value)
+            if isinstance(v, Obj) and "__fields__" in v.attrs:
+                tup = tuple(v.attrs[f_] for f_ in v.attrs["__fields__"])
+                try:
+                    if isinstance(n.slice, ast.Slice):
+                        return tup[(self.expr(n.slice.lower) if n.slice.lower else None):(self.expr(n.slice.upper) if n.slice.upper else None)]
+                    return tup[self.expr(n.slice)]
+                except (IndexError, TypeError) as e:
+                    raise Raised(type(e).__name__)
             if isinstance(v, Obj):
                 return self.dunder(v, "__getitem__", self.expr(n.slice))
             try:
@@ -554,7 +601,7 @@ class _Interp(object):
                     return v[lo:hi]
                 return v[self.expr(n.slice)]
             except (IndexError, KeyError, TypeError) as e:
-                raise Unknown("subscript raised %s" % type(e).__name__)
+                raise Raised(type(e).__name__, "subscript")
         if isinstance(n, (ast.Tuple, ast.List)):
             out = []
             for e in n.elts:
@@ -601,6 +648,10 @@ class _Interp(object):
             if isinstance(base, (str, bytes, bytearray, list, tuple, dict, set, frozenset)) and n.attr in _PURE_METHODS.get(type(base), ()):
                 # a bound built-in method taken as a value: append = res.extend
                 return Native(getattr(base, n.attr))
+            if isinstance(base, Regex) and n.attr in ("sub", "subn", "match", "search", "fullmatch", "split", "findall", "finditer"):
+                return RegexMethod(base, n.attr)
+            if isinstance(base, Regex) and n.attr in ("pattern", "flags"):
+                return getattr(base, n.attr)
             raise Unknown("attribute %s" % n.attr)
         if isinstance(n, ast.Name) and n.id not in self.env:
             gov = getattr(self.repo, "global_overrides", None)
@@ -734,7 +785,7 @@ class _Interp(object):
                     except Exception as e:
                         raise Unknown("regex op raised %s" % e)
                     return r
-                if isinstance(base, _re_Match) and f.attr in ("group", "start", "end", "span"):
+                if isinstance(base, _re_Match) and f.attr in ("group", "start", "end", "span", "groups", "groupdict", "expand"):
                     return getattr(base, f.attr)(*args)
                 raise Unknown("method %s on %s" % (f.attr, type(base).__name__))
             if dn in ("os.path.splitext", "posixpath.splitext"):
@@ -878,6 +929,45 @@ class _Interp(object):
                     r = list(r)
                 return r
             ref = self.repo.resolve(self.module, f.id)
+            if ref is not None and ref.module is None and ref.qualname == "functools.partial" and args and isinstance(args[0], _CALLABLE_VALUES):
+                return Partial(args[0], list(args[1:]), dict(kwargs), self.module)
+            if ref is not None and ref.module is None and ref.qualname == "functools.reduce" and len(args) in (2, 3) and isinstance(args[0], _CALLABLE_VALUES):
+                seq = self.iterate(args[1])
+                if len(args) == 3:
+                    acc = args[2]
+                elif seq:
+                    acc, seq = seq[0], seq[1:]
+                else:
+                    raise Raised("TypeError", "reduce() of empty sequence")
+                for x in seq:
+                    acc = self.call_value(args[0], [acc, x], {})
+                return acc
+            if ref is not None and ref.module is None and ref.qualname.startswith(("itertools.", "operator.")) and hasattr(_it if ref.qualname.startswith("itertools.") else _op, ref.qualname.partition(".")[2]):
+                # the standard iterator algebra, with interpreted callables and iterator instances adapted
+                fn_ = getattr(_it if ref.qualname.startswith("itertools.") else _op, ref.qualname.partition(".")[2])
+
+                def _adapt(v):
+                    if isinstance(v, _CALLABLE_VALUES) and not isinstance(v, Obj):
+                        return lambda *a, **k: self.call_value(v, list(a), k)
+                    if isinstance(v, Obj):
+                        try:
+                            return self.iterate(v)
+                        except Unknown:
+                            return lambda *a, **k: self.call_value(v, list(a), k)
+                    return v
+                try:
+                    r = fn_(*[_adapt(a) for a in args], **{k: _adapt(v) for k, v in kwargs.items()})
+                    if ref.qualname.startswith("itertools.") and ref.qualname not in ("itertools.count", "itertools.cycle", "itertools.repeat"):
+                        r = list(r)
+                        if ref.qualname == "itertools.groupby":
+                            r = [(k, list(g)) for k, g in r]
+                    elif ref.qualname == "itertools.repeat" and len(args) == 2:
+                        r = list(r)
+                    return r
+                except Unknown:
+                    raise
+                except Exception as e:
+                    raise Raised(type(e).__name__, ref.qualname)
             ov = getattr(self.repo, "overrides", None)
             if ov and ref is not None and ref.qualname in ov:
                 # a rule replaced this callee by its reference model (stated in the rule's description)
@@ -902,6 +992,11 @@ class _Interp(object):
                     kw = dict(pv.kwargs)
                     kw.update(kwargs)
                     return run_function(self.repo, pv.func, list(pv.args) + list(args), kw, self.depth + 1)
+                if pv is None or isinstance(pv, _CALLABLE_VALUES):
+                    # any other module-level callable value (partial of a pattern's method, closure, instance with __call__)
+                    val = pv if pv is not None else _Interp(self.repo, ref.module, {}, self.depth + 1).expr(ref.node)
+                    if isinstance(val, _CALLABLE_VALUES):
+                        return self.call_value(val, args, kwargs)
             if ref is not None and ref.qualname in ("os.path.splitext", "posixpath.splitext"):
                 import posixpath
                 return posixpath.splitext(*args)
@@ -1041,6 +1136,8 @@ def _call_value(self, v, args, kwargs):
     if isinstance(v, Bound):
         bm = getattr(v, "module", None) or v.obj.module
         return run_function(self.repo, FuncRef(bm, v.fn, "%s.%s.%s" % (bm.name, v.obj.cls.name, v.fn.name)), [v.obj] + list(args), kwargs, self.depth + 1)
+    if isinstance(v, RegexMethod):
+        return self.regex_method(v.regex, v.name, list(args), kwargs)
     if isinstance(v, Obj):
         # an instance of a class with __call__
         return self.call_value(_class_member(self.repo, v, "__call__"), args, kwargs)
@@ -1048,7 +1145,7 @@ def _call_value(self, v, args, kwargs):
         kw = dict(v.kwargs)
         kw.update(kwargs)
         return self.call_value(v.func, list(v.args) + list(args), kw)
-    if callable(v) and getattr(v, "__module__", None) in ("builtins", None) and not isinstance(v, type):
+    if callable(v) and (getattr(v, "__module__", None) in ("builtins", None, "operator", "functools", "_operator", "_functools") or type(v).__module__ in ("operator", "_operator", "functools", "_functools")) and not isinstance(v, type):
         try:
             return v(*args, **kwargs)
         except Unknown:
